@@ -6,6 +6,7 @@ CONSTANTS NV = 2
  Bytes = {44}
  CharSet = {97}
  AttLens = {0, 1, 2}
+ ResizeSet = {0, 1, 2, 5}
  CapSet = {0, 4}
  Orig = TRUE
  Skip = {"prepend"}
